@@ -140,3 +140,35 @@ func Close(a, b, scale, rel, abs float64) bool {
 	}
 	return math.Abs(a-b) <= rel*math.Abs(scale)+abs
 }
+
+// RunOnInputs runs one cell on an already built input array (which the caller may reuse), from init (nil = model-initialised).
+func RunOnInputs(m sim.TimeSteppingModel, in data.ND3Float64, init []float64) Result {
+	desc := m.Description()
+	T := in.Len(2)
+	states := m.InitialiseStates(1)
+	if init != nil {
+		states = data.NewArray2DFloat64(1, len(init))
+		for i, v := range init {
+			states.Set2(0, i, v)
+		}
+	}
+	ns := states.Len(1)
+	res := Result{Init: make([]float64, ns)}
+	for i := 0; i < ns; i++ {
+		res.Init[i] = states.Get2(0, i)
+	}
+	out := data.NewArray3DFloat64(1, len(desc.Outputs), T)
+	m.Run(in, states, out)
+	res.Out = make([][]float64, len(desc.Outputs))
+	for o := range res.Out {
+		res.Out[o] = make([]float64, T)
+		for t := 0; t < T; t++ {
+			res.Out[o][t] = out.Get3(0, o, t)
+		}
+	}
+	res.States = make([]float64, ns)
+	for i := 0; i < ns; i++ {
+		res.States[i] = states.Get2(0, i)
+	}
+	return res
+}
